@@ -188,9 +188,10 @@ let () =
                let nm = name_of_string nm in
                let cfg = { dc_ctype = opt_of n_of_dec ct; dc_fresh = opt_of z_of_dec fr; dc_fbid = opt_of comp_of_string fb } in
                let content = wire_of_string content in
-               let sg = signer_of_string sg in
+               let sgfail = (sg = "fail") in
+               let sg = if sgfail then None else signer_of_string sg in
                let pickv = opt_of bytes_of_hexf pick in
-               let m = match make_data (fun _ -> pickv) nm cfg content sg with
+               let m = if sgfail then "err" else match make_data (fun _ -> pickv) nm cfg content sg with
                  | Ok e -> Printf.sprintf "ok segs=%s cov=%s" (string_of_wire e.e_wire) (cov_s e.e_cov)
                  | Err -> "err" | Panic -> "panic" in
                incr compared;
@@ -207,10 +208,11 @@ let () =
                let cfg = { ic_cbp = (cbp = "1"); ic_mbf = (mbf = "1"); ic_fh = names_of_string fh; ic_nonce = opt_of n_of_dec nonce;
                            ic_life = opt_of z_of_dec life; ic_hop = opt_of n_of_dec hop } in
                let app = wire_of_string app in
-               let sg = signer_of_string sg in
+               let sgfail = (sg = "fail") in
+               let sg = if sgfail then None else signer_of_string sg in
                let pickv = opt_of bytes_of_hexf pick in
                let res = make_interest sha256_m (fun _ -> pickv) nm cfg app sg in
-               let m = match res with
+               let m = if sgfail then "err" else match res with
                  | Ok e -> Printf.sprintf "ok segs=%s cov=%s final=%s" (string_of_wire e.e_wire) (cov_s e.e_cov) (string_of_name e.e_final)
                  | Err -> "err" | Panic -> "panic" in
                incr compared;
@@ -304,6 +306,7 @@ let () =
       | ["TAMPER"; id; bit; region; outcome] ->
           incr compared;
           if outcome = "accepted" then specfail ("tamper-" ^ region) (Printf.sprintf "packet %s with bit %s flipped is still accepted" id bit)
+      | "SFACT" :: _ -> ()
       | [""] | [] -> ()
       | "#" :: _ -> ()
       | _ -> Printf.printf "BADLINE %d\n" !lineno
